@@ -306,6 +306,14 @@ class Interp:
         for z in (a, b):
             if isinstance(z, Lz):
                 other = b if z is a else a
+                if getattr(self, 'lz_arith_ok', False):
+                    if z.v is None:
+                        z.v = z.cands[self.ch.choose(len(z.cands))]
+                    a = a.v if isinstance(a, Lz) else a
+                    b = b.v if isinstance(b, Lz) else b
+                    if isinstance(a, Lz) or isinstance(b, Lz):
+                        continue
+                    return self.arith(op, a, b, fn, e)
                 if op != '&' or not isinstance(other, int):
                     self.broken(fn, e, 'an input code unit is used in arithmetic (%s) other than masking with a constant: the value partition is no longer exact' % op)
                 if z.v is None:
@@ -390,6 +398,11 @@ class Interp:
                 b = tgt
                 continue
             cond = t.get('cond')
+            cx = t.get('condx')
+            while cond is None and isinstance(cx, dict) and cx.get('k') in ('ExprWithCleanups', 'ParenExpr', 'ImplicitCastExpr', 'MaterializeTemporaryExpr') and cx.get('c'):
+                cx = cx['c'][0]
+                if isinstance(cx, int):
+                    cond = cx
             if cond is None or cond not in val:
                 self.broken(fn, t or blk['el'][-1] if blk['el'] else {'ln': fn.f.get('l0')}, 'two-way branch without an evaluated condition')
             v = val[cond]
@@ -414,6 +427,8 @@ class Interp:
             n = fn.N(x)
             if n.get('v') is not None:
                 return n['v']
+            if n.get('k') in ('ExprWithCleanups', 'ParenExpr', 'MaterializeTemporaryExpr', 'CXXBindTemporaryExpr', 'ConstantExpr') and n.get('c'):
+                return V(n['c'][0])          # wrappers that the extractor keeps inline
             return None
 
         if k in ('CXXNullPtrLiteralExpr', 'GNUNullExpr'):
@@ -680,14 +695,14 @@ class Interp:
             key = self.lookup(fn, e)
             if key is None:
                 self.broken(fn, e, 'constructor %s has no facts' % e.get('fq'))
-            obj = self.new_object(e.get('t'), fn, e)
+            obj = self.new_object(self.fx.raw['functions'][key].get('cls') or e.get('t'), fn, e)
             self.call(self.fx.fn(key), obj, args, depth + 1)
             val[i] = obj
             return
         if k == 'Init':
             v = self.rv(V(e['init'])) if e.get('init') is not None else None
-            if isinstance(v, Rec):
-                v = copy_rec(v)
+            if isinstance(v, Rec) and not (e.get('ft') or '').rstrip().endswith('&'):
+                v = copy_rec(v)              # a reference member aliases the object, a value member copies it
             this[e['field']] = v
             return
         if k in ('CallExpr', 'CXXMemberCallExpr', 'CXXOperatorCallExpr'):
@@ -708,6 +723,9 @@ class Interp:
     def new_object(self, t, fn, e):
         t = (t or '').replace('const ', '').strip()
         r = self.fx.raw['records'].get(t)
+        if r is None and '<' in t and self.fx.raw['records'].get(t.replace('<', '<const ', 1)):
+            t = t.replace('<', '<const ', 1)          # the class name of an instantiation is printed without the argument's const
+            r = self.fx.raw['records'][t]
         if r is None:
             self.broken(fn, e, 'no record facts for %s' % t)
         o = Rec()
@@ -724,6 +742,10 @@ class Interp:
         obj = None
         if e.get('mcall') or e['k'] == 'CXXMemberCallExpr':
             o = val.get(e.get('obj')) if e.get('obj') is not None else None
+            if o is None and e.get('c'):
+                b_ = val.get(e['c'][0]) if isinstance(e['c'][0], int) else None
+                if isinstance(b_, tuple) and b_ and b_[0] == 'bound':
+                    o = b_[1]            # conversion operators: the object is the base of the bound member expression
             callee = fn.N((e.get('c') or [None])[0]) if e.get('c') else {}
             if isinstance(o, LV):
                 ov = o.load()
@@ -736,7 +758,7 @@ class Interp:
                     raise Violation('a member function is called through a null pointer (%s)' % fq, fn.loc(e))
                 ov = ov.rec
             obj = ov
-        elif e['k'] == 'CXXOperatorCallExpr' and e.get('mcall') is None and args and self.lookup(fn, e) and self.fx.raw['functions'][self.lookup(fn, e)].get('cls'):
+        elif e['k'] == 'CXXOperatorCallExpr' and e.get('mcall') is None and args and self.lookup(fn, e) and self.fx.raw['functions'][self.lookup(fn, e)].get('cls') and not self.fx.raw['functions'][self.lookup(fn, e)].get('static'):
             # member operator: first argument is the object
             o = args[0]
             ov = o.load() if isinstance(o, LV) else o
@@ -761,9 +783,9 @@ class Interp:
         if key is None:
             self.broken(fn, e, 'callee %s has no facts and no model' % fq)
         callee = self.fx.fn(key)
-        if callee.f.get('cls') and obj is None:
+        if callee.f.get('cls') and obj is None and not callee.f.get('static'):
             self.broken(fn, e, 'member call %s without an object' % fq)
-        if callee.f.get('cls') and not isinstance(obj, Rec):
+        if callee.f.get('cls') and not callee.f.get('static') and not isinstance(obj, Rec):
             self.broken(fn, e, 'member call %s on a %s' % (fq, type(obj).__name__))
         self.trace_calls.append(fq)
         return self.call(callee, obj, args, depth + 1)
